@@ -21,11 +21,11 @@ class VCResult:
         self.name, self.status, self.secs, self.backend, self.model, self.detail = name, status, secs, backend, model, detail
 
 
-def solve(pc, goal, timeout_ms=None, want_model=True, use_cvc5=True):
+def solve(pc, goal, timeout_ms=None, want_model=True, use_cvc5=True, quick_candidate=False):
     """status in {'unsat','sat','unknown'}; for sat returns the z3 model.  An `unknown` bi-implication is retried
     as its two implications (sound: both must be unsat)."""
     timeout_ms = timeout_ms or QUICK_TIMEOUT_MS
-    r = _solve1(pc, goal, timeout_ms, want_model, use_cvc5)
+    r = _solve1(pc, goal, timeout_ms, want_model, use_cvc5, quick_candidate)
     if r[0] == "unknown" and z3.is_eq(goal) and z3.is_bool(goal.arg(0)):
         a, b = goal.arg(0), goal.arg(1)
         r1 = _solve1(pc, z3.Implies(a, b), timeout_ms, want_model, use_cvc5)
@@ -36,7 +36,7 @@ def solve(pc, goal, timeout_ms=None, want_model=True, use_cvc5=True):
     return r
 
 
-def _solve1(pc, goal, timeout_ms, want_model=True, use_cvc5=True):
+def _solve1(pc, goal, timeout_ms, want_model=True, use_cvc5=True, quick_candidate=False):
     t0 = time.time()
     fs = list(pc) + [z3.Not(goal)]
     quantified = any(has_quant(f) for f in fs)
@@ -65,6 +65,9 @@ def _solve1(pc, goal, timeout_ms, want_model=True, use_cvc5=True):
                 # the instantiation stopped on its time / instance budget (load dependent): its counter-model says nothing
                 if os.environ.get("PYVC_DEBUG"):
                     print("qf-stage sat after a truncated instantiation: not a candidate")
+            elif r == z3.sat and quick_candidate:
+                # vacuity (cover) checks only need 'not refuted': a model of the instantiated problem is enough, the quantified solver is not asked
+                return "candidate", time.time() - t0, "z3-qf-candidate", None
             elif r == z3.sat:
                 qf_model = s.model()
                 if os.environ.get("PYVC_DUMP_CAND"):
@@ -201,7 +204,7 @@ def verify_function(index, theory, contract, use_contracts=(), contracts=None, l
         ex0.pc, ex0.obls, ex0.guards = [], [], []
         req = contract.requires(ex0, *args)
         pre.append(req)
-        st, secs, be, _ = solve(pre, z3.BoolVal(False), timeout_ms=5000, want_model=False, use_cvc5=False)
+        st, secs, be, _ = solve(pre, z3.BoolVal(False), timeout_ms=5000, want_model=False, use_cvc5=False, quick_candidate=True)
         report.add(f"{q}#cover.{case_name}", "unsat" if st != "unsat" else "sat", secs, be,
                    detail=None if st != "unsat" else "precondition unsatisfiable (vacuous contract)")
         try:
@@ -266,7 +269,7 @@ def verify_cases(index, theory, qname, cases, use_contracts=(), contracts=None, 
     for case in cases:
         ex = Exec(index, theory, contracts=contracts or {}, use_contracts=use_contracts, loop_specs=loop_specs or {})
         pre = list(case.get("pre", []))
-        st, secs, be, _ = solve(pre, z3.BoolVal(False), timeout_ms=5000, want_model=False, use_cvc5=False)
+        st, secs, be, _ = solve(pre, z3.BoolVal(False), timeout_ms=5000, want_model=False, use_cvc5=False, quick_candidate=True)
         report.add(f"{qname}#cover" if many else f"{qname}#cover.{case['name']}", "unsat" if st != "unsat" else "sat", secs, be,
                    detail=None if st != "unsat" else "hypotheses unsatisfiable (vacuous)")
         try:
